@@ -150,6 +150,16 @@ fn one_flow_many_n(rng: &mut Rng, rec: &mut Rec) {
                 if s.finished() {
                     return rec.fail("C18/finished-without-room", format!("an empty write into {} bytes finished the body", n));
                 }
+            } else {
+                // 5..8 bytes: nothing is advertised, but a caller may still offer a byte or two; whatever
+                // happens to them, offering data is not the end of the body
+                rec.call();
+                let r = s.write(b"zz", &mut buf);
+                rec.ev(|| format!("step {}: write(in=2, out={}) where nothing is advertised -> {:?}", step, n, r));
+                rec.cov("one-flow/data-write-where-nothing-is-advertised");
+                if s.finished() {
+                    return rec.fail("C18/data-write-finished-the-body", format!("a write of 2 bytes into {} bytes finished the body", n));
+                }
             }
             continue;
         }
